@@ -126,13 +126,13 @@ const SOLUTION_FIELDS: [&str; 7] = ["start", "end", "instance", "solver", "param
 macro_rules! set_instance_like {
     ($a:expr, $f:expr, $salt:expr) => {
         match $f {
-            "title" => $a.set_title(format!("title-{}", $salt)),
+            "title" => $a.set_title(format!("title-{} ", $salt)),
             "authors1" => $a.set_authors(vec![format!("Ada Lovelace {}", $salt)]),
-            "authors3" => $a.set_authors(vec!["A. One".to_string(), format!("B Two {}", $salt), "C-Three".to_string()]),
+            "authors3" => $a.set_authors(vec![" A. One".to_string(), format!("B Two {} ", $salt), "C-Three".to_string()]),
             "created" => $a.set_created(instant(1)),
             "created-subsecond" => $a.set_created(instant(0)),
             "license" => $a.set_license(format!("MIT-{}", $salt)),
-            "dataset" => $a.set_dataset(format!("miplib-{}", $salt)),
+            "dataset" => $a.set_dataset(format!(" miplib-{}", $salt)),
             "variables" => $a.set_variables(12345 + $salt),
             "constraints" => $a.set_constraints(678 + $salt),
             "other" => $a.set_other("org.example.key".to_string(), format!("user value, with comma {}", $salt)),
@@ -145,7 +145,7 @@ macro_rules! check_instance_like {
     ($a:expr, $f:expr, $salt:expr, $bad:expr) => {
         match $f {
             "title" => {
-                if $a.title().ok().map(|s| s.as_str()) != Some(format!("title-{}", $salt).as_str()) {
+                if $a.title().ok().map(|s| s.as_str()) != Some(format!("title-{} ", $salt).as_str()) {
                     $bad.push(format!("title read back as {:?}", $a.title().ok()));
                 }
             }
@@ -157,7 +157,7 @@ macro_rules! check_instance_like {
             }
             "authors3" => {
                 let got: Option<Vec<String>> = $a.authors().ok().map(|i| i.map(|s| s.to_string()).collect());
-                if got != Some(vec!["A. One".to_string(), format!("B Two {}", $salt), "C-Three".to_string()]) {
+                if got != Some(vec![" A. One".to_string(), format!("B Two {} ", $salt), "C-Three".to_string()]) {
                     $bad.push(format!("authors read back as {got:?}"));
                 }
             }
@@ -177,7 +177,7 @@ macro_rules! check_instance_like {
                 }
             }
             "dataset" => {
-                if $a.dataset().ok().map(|s| s.as_str()) != Some(format!("miplib-{}", $salt).as_str()) {
+                if $a.dataset().ok().map(|s| s.as_str()) != Some(format!(" miplib-{}", $salt).as_str()) {
                     $bad.push(format!("dataset read back as {:?}", $a.dataset().ok()));
                 }
             }
